@@ -131,7 +131,21 @@ def build_case(data):
     else:
         me = gen_cat.t_cat(t, sysm, depth=2, bar=True)
     present = sorted({ftxt(f) for f in feats(mc) if f is not None})
-    pool = present + present + ['X', 'nb', 'dcl', 'zz', 'mod=nm,form=base,fin=f', 'case=nc,mod=nm,fin=f']
+    # near misses of the features present: proper prefixes, suffixes, extensions (a name erases a feature only when
+    # it is that feature, wherever it stands in the argument list)
+    near = []
+    for f in present:
+        if '=' in f:
+            # three-part feature: a well-formed name keeps the three key=value parts; one value is nearly the same
+            kvs = [kv.split('=', 1) for kv in f.split(',')]
+            for i, (k_, v_) in enumerate(kvs):
+                for nv in (v_[:-1], v_ + 'x', v_[1:]):
+                    if nv:
+                        near.append(','.join(f'{k2}={nv if j == i else v2}' for j, (k2, v2) in enumerate(kvs)))
+        else:
+            near += [f[:k] for k in range(1, len(f))][:3] + [f[1:], f + 'x', f + f]
+    near = [n for n in dict.fromkeys(near) if n and n not in present]
+    pool = present + present + near + ['X', 'nb', 'dcl', 'zz', 'mod=nm,form=base,fin=f', 'case=nc,mod=nm,fin=f']
     names = []
     for _ in range(t.below(4)):
         n = t.pick(pool)
